@@ -28,7 +28,7 @@ ASSUMPTIONS = [
     "an exception raised by mashumaro's code generator while the class is being defined means the class cannot exist: no verdict (counted)",
     "first use = first instantiation, performed after all classes of the module (incl. forward-referenced ones) are defined",
 ]
-MUST_SEE = ["same_name_in_another_module", "none_default_fields", "init_false_fields", "reject_at_first_use", "reject_at_definition", "override_changes_category", "newtype_node_in_tuple", "none_annotation", "child_verdicts", "prop_verdicts", "forward_refs", "postponed", "inherited", "reuse_after_rejection"]
+MUST_SEE = ["base_used_before_subclass", "same_name_in_another_module", "none_default_fields", "init_false_fields", "reject_at_first_use", "reject_at_definition", "override_changes_category", "newtype_node_in_tuple", "none_annotation", "child_verdicts", "prop_verdicts", "forward_refs", "postponed", "inherited", "reuse_after_rejection"]
 CONFIG = {
     "quick": {"shards": 16, "d2_sample": 200, "d3_sample": 40, "layouts_per_ann": 3, "watchdog_s": 600},
     "thorough": {"shards": 32, "d2_sample": -1, "d3_sample": 2000, "layouts_per_ann": 99, "watchdog_s": 3400},
@@ -186,6 +186,14 @@ def run_batch(ctx, P, items, postponed_module: bool):
                 ctx.violation(mech("reject-wrong-field"), "InvalidFieldAnnotations does not name the field", dict(detail, fields=outcome[1]))
             continue
         C = ns[T]
+        if layout in ("override_prop", "override_child", "override_none_default", "inherit", "multi_base_empty") and (k % 2 == 0):
+            # history: the base class is classified (used) before the subclass that inherits / overrides its field
+            try:
+                ns[srcs[0][0]].get_child_fields()
+                list(ns[srcs[0][0]].get_property_fields())
+                ctx.count("base_used_before_subclass")
+            except Exception:  # noqa: BLE001 - the base's own annotations may be the rejected ones (layout 'inherit')
+                pass
         try:
             if layout in ("none_default", "override_none_default"):
                 C.get_child_fields()  # first use without an instance (None is not a value of every annotation)
